@@ -220,8 +220,6 @@ def mk_cases(ctx):
         fs = []
         for _ in range(n):
             fs += gen_fields(rng, recs, 1, 1) + gen_fields(rng, recs, 1, 1)
-        if rng.random() < 0.5:   # keep old != new most of the time (old == new is the known drop-field defect)
-            fs = [f if i % 2 == 0 or f != fs[i - 1] else f + b"N" for i, f in enumerate(fs)]
         return (["rename", csv(fs)], fs, [], recs)
 
     def g_label():
@@ -291,6 +289,25 @@ def mk_cases(ctx):
             return (args, [f], [sep], recs)
         return ("nest %s --values %s" % (mode, across), code, g)
 
+    def g_nest_meta():
+        """implode across fields with arbitrary field names: real F_<n> fields, look-alikes a regex reading of F would match"""
+        f = rng.choice(META + PLAIN[:6])
+        look = [f.replace(b".", b"x").replace(b"*", b"").replace(b"|", b"").replace(b"+", b"a") + b"_1", f + b"_", f + b"_1x", f + b"_x", b"z" + f + b"_2", f[:1] + b"_3"]
+        recs = []
+        for _ in range(rng.choice([1, 2, 3])):
+            names = [f + b"_%d" % rng.choice([1, 2, 3, 10, 0, 7]) for _ in range(rng.randint(0, 3))] + rng.sample(look, rng.randint(0, 3))
+            names += [gen_name(rng) for _ in range(rng.randint(0, 3))] + ([f] if rng.random() < 0.3 else [])
+            rng.shuffle(names)
+            r, seen = [], set()
+            for k in names:
+                if k not in seen and k:
+                    seen.add(k)
+                    r.append((k, rng.choice(VALUES)))
+            if r:
+                recs.append(r)
+        recs = recs or [[(f + b"_1", b"v")]]
+        return (["nest", "--implode", "--values", "--across-fields", "-f", arg(f)], [f], [b";"], recs)
+
     def g_l2w():
         recs = gen_stream(rng, homog=rng.random() < 0.5)
         present = [k for r in recs for k, _ in r] or [b"k"]
@@ -313,7 +330,7 @@ def mk_cases(ctx):
         ("unsparsify", 11, g_unsparsify), ("unsparsify -f", 12, g_unsparsify_f),
         ("sparsify", 13, g_sparsify), ("sparsify -f", 14, g_sparsify_f), ("fill-empty", 15, g_fill_empty),
         g_nest("--explode", "--across-records", 16), g_nest("--explode", "--across-fields", 17),
-        g_nest("--implode", "--across-records", 18), g_nest("--implode", "--across-fields", 19, stem_only=True),
+        g_nest("--implode", "--across-records", 18), g_nest("--implode", "--across-fields", 19, stem_only=True), ("nest --implode --values --across-fields (any name)", 19, g_nest_meta),
         ("reshape long-to-wide", 20, g_l2w), ("reshape wide-to-long", 21, g_w2l),
         g_plain("altkv", 22),
     ]
@@ -402,6 +419,15 @@ def oracle(name, code, A, B, recs, out):
             if restrict(r, {f}) != [kv for kv in o if kv in restrict(r, {f})] and uniq(o):
                 return ("nest-explode-fields", "a bystander field was changed")
         if code == 19:
+            f = A[0]
+            lit = lambda k: k.startswith(f + b"_") and len(k) > len(f) + 1 and k[len(f) + 1:].isdigit()
+            if [kv for kv in o if not lit(kv[0]) and kv[0] != f] != [kv for kv in r if not lit(kv[0]) and kv[0] != f]:
+                return ("nest-implode-fields-bystander", "implode across fields changed a field that is neither F_<digits> nor F")
+            if any(lit(k) for k, _ in o):
+                return ("nest-implode-fields-leftover", "a field named F_<digits> survived the implode")
+            vs = [v for k, v in r if lit(k)]
+            if vs and B[0].join(vs) not in [v for k, v in o if k == f]:
+                return ("nest-implode-fields-value", "the imploded value is not the join of the F_<digits> values")
             if not uniq(o) and uniq(r):
                 return ("nest-implode-fields-duplicate-name", "implode across fields produced two fields of the same name")
         if code == 22:
@@ -494,7 +520,7 @@ def inverse_oracles(ctx):
                                                "nest", "--implode", "--values", "--across-records", "-f", arg(f)], [r], "id"))
         jobs.append(("nest-evar-ivar", ["nest", "--evar", ";", "-f", arg(f), "then", "nest", "--ivar", ";", "-f", arg(f)], [r], "id"))
         # explode across fields then implode across fields (metacharacter-free stem, no clash with existing f_<n>)
-        stem = [k for k, _ in r if all(chr(c).isalnum() for c in k) and not any(k2.startswith(k + b"_") for k2, _ in r)]
+        stem = [k for k, _ in r if not any(k2.startswith(k + b"_") for k2, _ in r)]
         if stem:
             f = rng.choice(stem)
             jobs.append(("nest-fields-explode-implode", ["nest", "--explode", "--values", "--across-fields", "-f", arg(f), "then",
@@ -550,8 +576,8 @@ def inverse_oracles(ctx):
             continue
         seen.add(kind)
         cls = "inverse-" + kind
-        if msg == "mlr failed" and "cannot compile regex" in str(obs) and args and args[0] == "nest":
-            cls = "nest-field-name-used-as-regex"
+        if msg == "mlr failed" and "cannot compile regex" in str(obs) and any(isinstance(a, str) and not a.isascii() for a in args):
+            cls = "nest-non-utf8-field-name-rejected"
         violation_once(ctx, {"broken": "inverse/complement law " + kind, "args": repr(args), "input": repr(recs), "observed": repr(obs),
                              "expected": msg, "class": cls})
 
@@ -577,7 +603,8 @@ def cli_tie(ctx, meta):
 
 
 def defect_probes(ctx):
-    """fixed witnesses of defects of the pinned tree (classes listed in c12.findings.md); each is reported while it reproduces"""
+    """fixed witnesses: the three known-finding classes (KNOWN_FINDINGS.txt) and regression probes for the two defects repaired
+    in /repo (rename x,x: bdf02f36c; nest pattern quoting: 331a3d347), which are plain violations if they come back"""
     probes = [
         ("rename-to-same-name-drops-field", ["rename", "a,a"], [[(b"a", b"1"), (b"b", b"2")]], [[(b"a", b"1"), (b"b", b"2")]]),
         ("nest-explode-fields-duplicate-name", ["nest", "--explode", "--values", "--across-fields", "-f", "x"],
@@ -664,7 +691,8 @@ def saver_bystanders(ctx):
                         if any(w != v.replace(old, new, 1) for (k, v), (_, w) in zip(r, q) if k in S):
                             bad = "ssub is not the replacement of the first occurrence"
                     if kind == "case-v" and not bad:
-                        if any(up(v) is not None and w != up(v) for (k, v), (_, w) in zip(r, q) if k in S):
+                        numeric = lambda v: v[:1].isdigit() or v[:1] in (b"-", b"+", b".")   # case leaves numbers alone
+                        if any(up(v) is not None and not numeric(v) and w != up(v) for (k, v), (_, w) in zip(r, q) if k in S):
                             bad = "case -u -v is not the uppercased value"
                 elif kind == "case-k":
                     if [v for _, v in q] != [v for _, v in r] and len(q) == len(r):
@@ -710,7 +738,12 @@ def run(ctx):
         ctx.count((code, repr(A), repr(B), repr(recs)))
         if st != 0:
             msg = err.decode("latin1")[-300:]
-            cls = "nest-field-name-used-as-regex" if (code in (16, 17, 18, 19) and "cannot compile regex" in msg) else "mlr-failed"
+            cls = "mlr-failed"
+            if code in (16, 17, 18, 19) and "cannot compile regex" in msg:
+                try:
+                    A[0].decode("utf-8")
+                except UnicodeDecodeError:
+                    cls = "nest-non-utf8-field-name-rejected"
             oracle_bad.append((j, None, (cls, "verb failed: " + msg)))
             continue
         o = oracle(name, code, A, B, recs, out)
